@@ -13,3 +13,18 @@ package kv
 //@   loop 0: invariant dispatcher == d && d != nil && hash.addReady(d)
 //@   ensures result.(clusterStore).dispatcher == d && fresh(d)
 //@   allocates
+
+// every key is served by the node the ring maps THAT key to: getRedis asks the ring for the key it was given, and the
+// multi-key delete resolves and deletes each key on its own node
+//@ func (cs clusterStore) getRedis
+//@   property C15
+//@   requires cs.dispatcher != nil && hash.hInv(cs.dispatcher)
+//@   call Get#0: assert arg_v == boxed(key) && arg_recv == cs.dispatcher
+//@ func (cs clusterStore) DelCtx
+//@   property C15
+//@   requires cs.dispatcher != nil && hash.hInv(cs.dispatcher)
+//@   ghost at after getRedis#0: nd = ret0
+//@   call getRedis#0: assert arg_key == key
+//@   call DelCtx#0: assert arg_recv == nd && len(arg_keys) == 1 && arg_keys[0] == key && arg_ctx == ctx
+//@   loop 0: modifies rdsDels
+//@   loop 0: invariant true
